@@ -348,7 +348,7 @@ func (rn *runner) runInput(in map[string]string) {
 	case "direct":
 		rn.directOne(directCase{in["call"], in["spec"], in["file"]})
 	case "limit":
-		rn.limitOne(limitCase{in["call"], in["old"], in["new"], in["helper"], atoi("L")})
+		rn.limitOne(limitCase{in["call"], in["old"], in["new"], in["helper"], atoi("L"), in["inside"] == "true"})
 	case "persist":
 		if rn.st {
 			rn.persistOne(persistCase{in["call"], in["old"], in["new"], in["helper"], atoi("kw"), in["trunc"]})
